@@ -100,8 +100,11 @@ def St.kill (s : St) (d : Dir) : St := { s with dead := (s.cur, d) :: s.dead }
 def dataOp (s : St) (d : Dir) (b : Bytes) (es : Bool) : St × String :=
   if s.isDead d then (s, "out-of-model") else
   let r0 := Stream.data (codec s false) s.stream d b es
-  let r1 := Stream.data (codec s true) s.stream d b es
-  if r0 != r1 then (s.kill d, "out-of-model")
+  -- the library is consulted only for a compressed message under a non-identity encoding
+  -- (`decode` / `encode`): on the other streams one run is enough (large messages are identity)
+  let needLib := s.stream.enabled && (s.stream.get d).enc != .identity
+  let r1 := if needLib then Stream.data (codec s true) s.stream d b es else r0
+  if needLib && r0 != r1 then (s.kill d, "out-of-model")
   else match r0.1 with
     | some st => (s.setStream st, showEvs r0.2)
     | none => (s.kill d, showEvs r0.2)
